@@ -1065,6 +1065,15 @@ static std::vector<Big> value_space(int fullbits, int step, int radix, int e, st
             add3(t / re);
         }
     }
+    // odd values on a geometric progression (ratio 1.1875): some value in every band of magnitudes, with a full-length
+    // expansion (an odd rep uses every fractional digit of a negative exponent)
+    for (Big g(3); g <= hi; g = g + g.shr_trunc(3) + g.shr_trunc(4) + Big(1)) {
+        Big o = g.low128() & 1 ? g : g + Big(1);
+        for (int sg = -1; sg <= 1; sg += 2) {
+            Big x = o * Big(sg);
+            if (x >= lo && x <= hi) s.insert(x);
+        }
+    }
     return std::vector<Big>(s.begin(), s.end());
 }
 
@@ -1237,6 +1246,8 @@ using OVN = cnl::overflow_integer<int>;
 using RND = cnl::rounding_integer<int>;
 using E7N8 = cnl::elastic_integer<7, std::int8_t>;  // representations of character type: text must still be a numeral
 using OVU8 = cnl::overflow_integer<std::uint8_t>;
+using OVU32 = cnl::overflow_integer<unsigned>;  // reps no wider than int but unsigned: values >= 2^31
+using RNU32 = cnl::rounding_integer<unsigned>;
 using E33N8 = cnl::elastic_integer<33, std::int8_t>;  // one-byte Narrowest, but a 64-bit rep
 using EU32N8 = cnl::elastic_integer<32, std::uint8_t>;
 using W7C = cnl::wide_integer<7, signed char>;
